@@ -1,4 +1,5 @@
 import Cello.Table
+import Cello.TableMark
 import CelloGen.Table
 import Driver.Common
 import Std.Data.HashMap
@@ -72,6 +73,22 @@ def itemsStr (l : List (K × Int)) : String := Id.run do
   for (k, v) in l do
     c := mix (mix c k.h) (u64 v)
     if cnt < ITERMAX then s := s ++ s!" {k.name}:{v}"
+    cnt := cnt + 1
+  return s!"n={cnt} cs={c}{s}"
+
+/-- the `O mark` text: number of callback calls, checksum over all of them, the first `ITERMAX` spelled out -/
+def markStr (l : List (Reported K Int)) : String := Id.run do
+  let mut c := fnv0
+  let mut s := ""
+  let mut cnt := 0
+  for x in l do
+    match x with
+    | .key i k =>
+      c := mix (mix (mix c (i+1)) 1) k.h
+      if cnt < ITERMAX then s := s ++ s!" {i}.k:{k.name}"
+    | .val i v =>
+      c := mix (mix (mix c (i+1)) 2) (u64 v)
+      if cnt < ITERMAX then s := s ++ s!" {i}.v:{v}"
     cnt := cnt + 1
   return s!"n={cnt} cs={c}{s}"
 
@@ -238,6 +255,8 @@ structure St where
   nReplace : Nat := 0
   nDisplace : Nat := 0
   nOwn : Nat := 0          -- operations given an argument object of the table's own
+  nMark : Nat := 0
+  nHash : Nat := 0
 
 
 def main (args : List String) : IO Unit := do
@@ -275,6 +294,43 @@ def main (args : List String) : IO Unit := do
     if t ≥ NT then IO.println "O bad-op"; continue
     let kind := st.kinds[t]!
     if w.length > MAXW then IO.println "O bad-op"; continue
+    -- `mark` / `hash`: `Table_Mark` with a recording callback, `Table_Hash` (`Cello.Table.stepX`; no state change)
+    if let [nm, _] := w then
+      if nm == "mark" || nm == "hash" then
+        st := { st with nOps := st.nOps + 1 }
+        let vInt := kind == .I || kind == .S || kind == .Q
+        if nm == "hash" && !vInt then
+          st := { st with nHash := st.nHash + 1 }
+          IO.println "O hash n/a"      -- values that are not Int: the driver has no hash of the value object
+          continue
+        let xop : XOp K Int := if nm == "mark" then .mark t else .hash t
+        match stepX cfg K.h (asKey kind) (asVal kind) K.h u64 st.ts xop with
+        | .error f =>
+          IO.println s!"O {nm} {f.name}"
+          st := { st with halted := true }
+        | .ok (_, o) =>
+          match o with
+          | .marked l =>
+            IO.println s!"O mark {markStr l}"
+            st := { st with nMark := st.nMark + 1 }
+            if st.shadow then
+              let m := st.spec[t]!
+              let ok := match pairsOf l with
+                | some ps => l.length == 2 * m.length && (ps.length > 400 || sortItems ps == sortItems m)
+                | none => false
+              if !ok then
+                IO.println s!"M line={lineNo} op=mark model-reports={l.length} spec-len={m.length}"
+                st := { st with nMism := st.nMism + 1 }
+          | .hashed h =>
+            IO.println s!"O hash {h}"
+            st := { st with nHash := st.nHash + 1 }
+            if st.shadow then
+              let sh := Spec.hash K.h u64 (st.spec[t]!)
+              if sh ≠ h then
+                IO.println s!"M line={lineNo} op=hash model={h} spec={sh}"
+                st := { st with nMism := st.nMism + 1 }
+          | .base o => IO.println s!"O {nm} {obsStr o}"
+        continue
     -- `getk` / `getv`: `Table_Get` with a key argument that lives in the table's own slot array (no state change)
     if let [nm, _, ktok] := w then
       if nm == "getk" || nm == "getv" then
@@ -459,4 +515,4 @@ def main (args : List String) : IO Unit := do
           if !(invOk after) then
             IO.println s!"M line={lineNo} op={name} invariant-broken {dump after key false}"
             st := { st with nMism := st.nMism + 1 }
-  IO.println s!"S ops={st.nOps} maxslots={st.maxSlots} rehashes={st.nRehash} keyerrors={st.nKeyErr} replaces={st.nReplace} own-object-ops={st.nOwn} model-mismatches={st.nMism} shadow={st.shadow}"
+  IO.println s!"S ops={st.nOps} maxslots={st.maxSlots} rehashes={st.nRehash} keyerrors={st.nKeyErr} replaces={st.nReplace} own-object-ops={st.nOwn} marks={st.nMark} hashes={st.nHash} model-mismatches={st.nMism} shadow={st.shadow}"
